@@ -1,4 +1,4 @@
-PROP = {'suites': ['c19', 'c19lists', 'c19paths'],
+PROP = {'suites': ['c19', 'c19lists', 'c19paths', 'c19dcr'],
  'clauses': {1: 'the discovery document advertises an endpoint that is not served at that URL under one of its methods',
              2: 'a route is served that the discovery document does not advertise at that URL (suite c19paths: an optional endpoint that is absent from the metadata answers at its overridden or '
                 'default path, or an endpoint advertised at its overridden path also answers at the default path / outside the prefix; operation = number of the probe in Ops)',
@@ -16,14 +16,20 @@ PROP = {'suites': ['c19', 'c19lists', 'c19paths'],
              9: 'no encryption algorithm is advertised for an artifact, or the client asked for none, yet it came encrypted (artifact probe number = operation - 500)',
              10: 'a client registered for an advertised signing algorithm got an artifact signed with another one (artifact probe number = operation - 500)',
              11: 'authorization_signing_alg_values_supported is advertised but the JWT response modes are refused (artifact probe number = operation - 500)',
-             12: 'a JWT-secured authorization response was issued although authorization_signing_alg_values_supported is absent (artifact probe number = operation - 500)'},
+             12: 'a JWT-secured authorization response was issued although authorization_signing_alg_values_supported is absent (artifact probe number = operation - 500)',
+             13: 'dynamic client registration accepted (201) a value that the served discovery document does not advertise for that metadata member (suite c19dcr: registration probe number = '
+                 'operation; the registration = the base registration of the history + the Pre settings + the varied member Var)',
+             14: 'dynamic client registration refused (invalid_client_metadata) a value that the served discovery document advertises for that metadata member, in an otherwise valid registration '
+                 '(registration probe number = operation)',
+             15: 'a minimal registration within the advertised capabilities was refused, or the registration endpoint answered neither 201 nor 400 invalid_client_metadata (registration probe number '
+                 '= operation)'},
  'title': 'Discovery metadata matches what the provider serves and accepts',
  'text': 'Model: Discovery.v gives the discovery document (every member of openIDConfiguration with its omitempty rule) and the route table of Provider.Handler() as functions of the configuration '
          'built by Config.build from the option list; Config2.v/Discovery2.v make the client-authentication METHOD lists of the token / introspection / revocation endpoints, the derived '
          'private_key_jwt / client_secret_jwt algorithm lists and every signing / key-encryption / content-encryption ALGORITHM list (ID token, userinfo, JAR, JARM, DPoP, CIBA request objects) '
          "inputs: build2 wraps Config.build with one constructor per list-taking option of option.go (appendIfNotIn, the refusals of 'none' / HS*, the rune loop that makes WithSecretJWTSignatureAlgs "
          'refuse everything) and the list side of setDefaults, and gives the 20 list members of the document with the guard under which oidcConfig assigns each and the run-time gates that read the '
-         'same lists (clientAuthnSigAlgs, extractID + authnSigAlgs in front of jwt.ParseSigned, the Enc flags in MakeIDToken / userinfo / createJARMResponse). Theorems (Props/C19.v, 41, all closed): '
+         'same lists (clientAuthnSigAlgs, extractID + authnSigAlgs in front of jwt.ParseSigned, the Enc flags in MakeIDToken / userinfo / createJARMResponse). Theorems (Props/C19.v, 50, all closed): '
          'the 21 of the flag side (advertised_served / mtls_aliases_served / served_advertised, endpoint_flags_from_options, endpoint_enabled_advertised_and_served, '
          '<endpoint>_disabled_absent_and_refused for PAR, CIBA, introspection, revocation, DCR, grant_type_*, response_types_follow_grants, response_modes_follow_jarm, <response type|response '
          'mode|PKCE method>_not_advertised_refused, accepted_values_are_listed, binding_flags_match_behaviour, require_pushed_requests_enforced) and 11 about the lists: list_member_present_iff '
@@ -70,7 +76,36 @@ PROP = {'suites': ['c19', 'c19lists', 'c19paths'],
          'session is absent or advertised), pkce_exchange_only_under_advertised_method (over ALL histories the token endpoint completes a code exchange only under an advertised PKCE method - the '
          'named one or, for a challenge sent without method, the configured default, which is advertised), unadvertised_pkce_method_completes_no_exchange , among them every PKCE method END TO END - '
          'authorization request naming S256 / plain / an unknown method or leaving the method out with the challenge made for S256 or verbatim, then the redemption of the code with the pre-image and '
-         'with the challenge string - under a matrix of PKCE method lists: each method alone, both with either default, optional and required',
+         'with the challenge string - under a matrix of PKCE method lists: each method alone, both with either default, optional and required DYNAMIC CLIENT REGISTRATION AS THE GATE OF THE LISTS: '
+         'DcrGate.v is internal/dcr/validation.go `validate` over config2 - a registration is the record `reg` of the members of goidc.ClientMetaInfo the 35 validators read (what net/url, '
+         'encoding/json and the HTTP client compute on URIs / the JWKS enters as the boolean or count the validator derives), every validator transcribed guard by guard in the Go order and reading '
+         'the SAME list fields of Config2.lists / flags of Config.config that the document members of Discovery2.v read; `dmember` = the 21 string-valued members that are checked against a list '
+         '(<endpoint>_endpoint_auth_method and _auth_signing_alg for token / introspection / revocation, id_token / userinfo / authorization _signed_response_alg, request_object_signing_alg, '
+         'backchannel_authentication_request_signing_alg, the four _encrypted_response_alg / request_object_encryption_alg and the four _enc members, subject_type, backchannel_token_delivery_mode), '
+         '`dlist` = grant_types / response_types / scope. 6 theorems (C19DcrProofs.v), the first five for EVERY config2, every member, value and otherwise valid registration (hypotheses: the value '
+         'is non-empty, the registration with the member cleared passes validate, and side_ok - what else validation.go reads once the member is set: a JWKS and no registered signing algorithm next '
+         'to a method, a key algorithm next to a content algorithm ...): dcr_alg_accepted_iff_advertised (validate of the registration with member m := v = true where the guard of the validator is '
+         'off [`if !ctx.XIsEnabled { return nil }`, a signing algorithm next to a method that is not JWT-based, a delivery mode without the CIBA grant]; = v is ADVERTISED for m [l_advertised_in of '
+         'the list member of document2; for an auth signing algorithm: the method is advertised for the endpoint and v is in the part of <endpoint>_auth_signing_alg_values_supported contributed by '
+         "that method] where the document publishes the list; = v in the configured list where the validator is active under a wider guard than the document's), "
+         'dcr_alg_accepted_iff_advertised_when_published, dcr_alg_accepted_iff_advertised_unguarded (id_token_signed_response_alg / userinfo_signed_response_alg / token_endpoint_auth_method: '
+         'accepted iff in the list of THAT member - what checking userinfo_signed_response_alg against the ID token list violates; Example ex_dcr_userinfo_alg: ID token {RS256, PS256}, userinfo '
+         '{RS256, ES256}, JARM {RS256, PS384} - userinfo ES256 accepted and PS256 refused, the seeded validator answers the opposite on both), dcr_alg_of_disabled_feature_accepted, '
+         'dcr_listed_value_accepted_iff_advertised (adding a grant type / response type / scope), and for ALL option lists dcr_unpublished_acceptance (the validator active but the list not published '
+         'accepts something ONLY for request_object_encryption_alg/enc with WithJAREncryption but no WithJAR and for backchannel_authentication_request_signing_alg with WithCIBAJAR but no '
+         'WithCIBAGrant; Example ex_jar_enc_without_jar_builds). Correspondence: suite c19dcr - a DETERMINISTIC matrix, the same for every seed (23 option lists with WithDCR: 6 rotations in which '
+         'every signing / key-encryption / content-encryption list = the shared value + ONE value no other list has [ID token, userinfo, JAR, JARM, CIBA request objects, private_key_jwt; the four '
+         'key and four content lists], which value goes to which list and whether it is the default argument rotating, and the six non-`none` authentication methods split over the token / '
+         'introspection / revocation lists; 16 variants with one feature or list option dropped [JAR without / with its encryption option, JARM, each encryption, CIBA, CIBA JAR, introspection, '
+         'revocation, no userinfo / private_key_jwt / ID token / token-method option, default content algorithms, everything optional off]; WithDCR alone) plus random sub-lists of the universes (6 '
+         'quick, 260 thorough). For each the REAL provider is built (the JWKS holds a key for every signing algorithm of the universe), the served document fetched and ~130-150 REAL registrations '
+         'POSTed to the advertised registration_endpoint: a minimal valid document (token method `none` if advertised) + the side conditions + each value of the universe in ONE member; the answer is '
+         '201 / 400 invalid_client_metadata / other. The clients accepted with a signing or (decryptable) encryption algorithm obtain the artifact (ID token and userinfo through the implicit flow, '
+         'JWT-secured authorization response) with the machinery of c19lists. Case files: check_c19d = check_c19l (document member by member, artifacts against artifact_expected) + dcr_validate on '
+         'build2 of the same option list for every registration (corr 50000+i); mon_c19d evaluates the property on the observations alone (clauses 13-15: accepted iff the value is in the list the '
+         "SERVED document publishes for that member; for an auth signing algorithm: the method advertised and the algorithm in its family of the endpoint's list; artifacts: clauses 8-12). The "
+         'harness evaluates the same rule to name member, value and configuration (meta.Findings, one per signature: c19dcr:<metadata member>:accepted-not-advertised / advertised-refused / '
+         'unexpected-answer / artifact-uses-other-alg / artifact-alg-not-advertised, c19dcr:registration:minimal-registration-refused).',
  'note': 'Endpoint path overrides are options of the model in suite c19paths / Routes.v only (suites c19 and c19lists keep the default paths); there the non-endpoint members of the document are not '
          'compared (c19 / c19lists do) and the profile is openid. Out of the scope of c19paths, explicitly: (a) override paths that make the patterns of two endpoints overlap (two endpoints given '
          'the same path, a path below EndpointAuthorize/ or EndpointDCR/): ServeMux panics on conflicting registrations at Handler() or prefers the more specific pattern where the model takes the '
@@ -79,13 +114,27 @@ PROP = {'suites': ['c19', 'c19lists', 'c19paths'],
          'reads them as literal paths; (c) the mTLS aliases are compared with the model but not probed (same mux, another host). Subject types, claim types, CIBA delivery modes, ACRs, display '
          'values, claims and authorization-detail types stay constants of the harness. The list options are varied in suite c19lists only (fixed grants: authorization_code, implicit, '
          "client_credentials; profile openid); suite c19 keeps the harness's fixed lists. JAR / DPoP / CIBA-JAR signing algorithm lists and the JAR encryption lists are compared in the document and "
-         "covered by the theorems but not probed with signed request objects / proofs (C07 / C06 probe those with the fixed ES256). The DCR gates that read the same lists are C12's (Dcr.validate "
-         'over dcfg). DCR has no handler model here (route table and metadata only); the jwt-bearer grant is in the handler model (an advertised jwt-bearer grant answered unsupported_grant_type is clause 4 like every other grant), its probes are sent on the Go side. advertised_accepted is proved as a theorem for endpoints '
-         '(routing), for client_credentials, for client-authentication algorithms and for encryption; for response types/modes/PKCE methods the theorem is that the gate consults exactly the '
-         'advertised list (accepted_values_are_listed) and acceptance of whole flows is shown by the correspondence runs. Not flagged, reported: (1) userinfo is only encrypted for clients that also '
-         'asked for a SIGNED userinfo response, and there is no default userinfo signing algorithm (WithUserInfoEncryption without WithUserInfoSignatureAlgs advertises '
-         'userinfo_encryption_alg_values_supported that no registration accepted by DCR can use); (2) a client with authorization_signed_response_alg gets every authorization response, errors '
-         'included, as a signed JWT even when JARM is disabled and authorization_signing_alg_values_supported is absent (DCR accepts that registration when JARM is disabled); (3) '
-         'WithSecretJWTSignatureAlgs refuses every argument, so client_secret_jwt can only use the default HS256.',
+         'covered by the theorems but not probed with signed request objects / proofs (C07 / C06 probe those with the fixed ES256). The DCR gate that reads the same lists is modelled here as the '
+         "validation function alone (DcrGate.v over config2; C12's Dcr.v models the whole registration API - documents, storage, tokens - over a record of its own); update (PUT) runs the same "
+         'validate and is not probed here; the jwt-bearer grant is probed on the Go side only. advertised_accepted is proved as a theorem for endpoints (routing), for client_credentials, for '
+         'client-authentication algorithms and for encryption; for response types/modes/PKCE methods the theorem is that the gate consults exactly the advertised list (accepted_values_are_listed) '
+         'and acceptance of whole flows is shown by the correspondence runs. Not flagged, reported: (1) userinfo is only encrypted for clients that also asked for a SIGNED userinfo response, and '
+         'there is no default userinfo signing algorithm (WithUserInfoEncryption without WithUserInfoSignatureAlgs advertises userinfo_encryption_alg_values_supported that no registration accepted '
+         'by DCR can use); (2) a client with authorization_signed_response_alg gets every authorization response, errors included, as a signed JWT even when JARM is disabled and '
+         'authorization_signing_alg_values_supported is absent (DCR accepts that registration when JARM is disabled); (3) WithSecretJWTSignatureAlgs refuses every argument, so client_secret_jwt can '
+         'only use the default HS256. (4) NOT FLAGGED in suite c19dcr, reported: validation.go skips a validator when its feature is disabled (`if !ctx.XIsEnabled { return nil }`), so a registration '
+         'asking for a capability that is NOT enabled and NOT advertised is accepted (201) and the member is silently ignored at run time (but for (2)): request_object_signing_alg without WithJAR, '
+         'request_object_encryption_alg/enc without WithJAREncryption, authorization_signed_response_alg / authorization_encrypted_response_alg/enc without WithJARM, '
+         'id_token_encrypted_response_alg/enc without WithIDTokenEncryption (the ID token then comes unencrypted), userinfo_encrypted_response_alg/enc without WithUserInfoEncryption, '
+         "backchannel_authentication_request_signing_alg without WithCIBAJAR - any value, e.g. ECDH-ES+A128KW / PS512, against a provider built with WithDCR alone; and where the validator's guard is "
+         "wider than the document's the value is checked against a list nobody can read: WithJAREncryption(RSA-OAEP) without WithJAR accepts request_object_encryption_alg=RSA-OAEP and refuses "
+         'RSA-OAEP-256 while request_object_encryption_alg_values_supported is absent, WithCIBAJAR(PS256) without WithCIBAGrant accepts backchannel_authentication_request_signing_alg=PS256 and '
+         'refuses ES256 while the member is absent. The monitor and the harness give no verdict for exactly these (member, condition) pairs: the condition is the ABSENCE from the served document of '
+         "the member's list (for the JARM encryption members: of authorization_signing_alg_values_supported, the validator being guarded by JARMIsEnabled); the model (dcr_checked / doc_publishes) "
+         'and the correspondence still cover them. Also not judged: a <endpoint>_endpoint_auth_signing_alg next to a method that is not JWT-based (never read, accepted whatever it is), and a content '
+         'algorithm next to a key algorithm that is not advertised. A registration probe that carries side conditions (Pre) is blamed on its varied member even when a Pre member is the one refused '
+         '(seen with the seeded userinfo regression: userinfo_encrypted_response_alg advertised-refused because of the userinfo_signed_response_alg next to it). subject_types_supported, '
+         'backchannel_token_delivery_modes_supported and the absence of WithAuthorizationDetails are constants of the harness. in the handler model (an advertised jwt-bearer grant answered '
+         'unsupported_grant_type is clause 4 like every other grant), its',
  'technique': 'Coq proof (decision rules over all configurations / option lists; route-table case analysis) tied to the code by differential correspondence on generated configurations',
  'design_ref': 'DESIGN.md section 6, C19'}
